@@ -11,3 +11,10 @@ MUTANTS = [
     {'name': 'consumer unpacks two key columns as three', 'file': 'partitura/io/exportmatch.py', 'old': '            ts_num, ts_den, _ = spart.time_signature_map(snote.start.t)', 'new': '            ts_num, ts_den = spart.time_signature_map(snote.start.t)', 'expect': 'F4b'}]
 
 NEUTRALS = [{'name': 'guard with nested if already present: rename default var', 'file': 'partitura/score.py', 'old': '            kss = np.array([(t0, fifths, mode), (tN, fifths, mode)])', 'new': '            kss = np.array([(t0, fifths, mode), (tN, fifths, mode)], dtype=float)'}]
+
+# changes made by sub-agents that were given only the property text (see /verif/seeded/<id>/): each must stay reported
+SEEDED = [
+    {'name': 'seeded change C10-r2', 'seed': 'C10-r2', 'expect': '|NONE-test|'},
+    {'name': 'seeded change C10', 'seed': 'C10', 'expect': '|SIB-backfill|'},
+]
+MUTANTS += SEEDED
